@@ -52,7 +52,7 @@ func Model(w *Workload) *Expect {
 	unc := map[int]bool{}
 	for _, f := range w.Faults {
 		if f.Certain {
-			if _, ok := badKind[f.File]; !ok || f.Kind != "garbage-body" {
+			if _, ok := badKind[f.File]; !ok || (f.Kind != "garbage-body" && f.Kind != "garbage-bracket") {
 				badKind[f.File] = f.Kind
 			}
 		} else {
@@ -71,7 +71,7 @@ func Model(w *Workload) *Expect {
 			return false // what an uncertain fault leaves of the import section is unknown
 		}
 		k, bad := badKind[i]
-		return !bad || k == "garbage-body"
+		return !bad || k == "garbage-body" || k == "garbage-bracket"
 	}
 	type pend struct {
 		to       int
